@@ -208,6 +208,38 @@ func clustersim(args []string) error {
 				}
 			}
 		}
+		// second part: contention on ONE key inside one Ready - two conditional SETs (NX) on an absent
+		// key queued together; a second write to a key that already has a pending write in the batch
+		// must see the first one (only one of the two may answer OK)
+		for it := 0; it < 3; it++ {
+			one(zop{"del", "s1", 0}, 3*time.Second)
+			cl.kids[ld].send("hold ready.advanced 1 wait.register 4")
+			if ln := cl.kids[ld].waitLine(5*time.Second, "ARMED "); !strings.HasPrefix(ln, "ARMED ") {
+				return env("arming failed")
+			}
+			go func() {
+				if c, err := dialResp(cl.redisPort(ld), 2*time.Second); err == nil {
+					c.do(6*time.Second, "set", keyPrefix+"warm", "b")
+					c.close()
+				}
+			}()
+			if ln := cl.kids[ld].waitLine(5*time.Second, "HELD "); !strings.HasPrefix(ln, "HELD ") {
+				return env("raft goroutine was not held")
+			}
+			done := make(chan bool, 2)
+			go func() { done <- one(zop{"setifnx", "s1", int64(2000 + 10*it + 1)}, 6*time.Second) }()
+			go func() { done <- one(zop{"setifnx", "s1", int64(2000 + 10*it + 2)}, 6*time.Second) }()
+			time.Sleep(60 * time.Millisecond)
+			go func() {
+				if c, err := dialResp(cl.redisPort(ld), 2*time.Second); err == nil {
+					c.do(6*time.Second, "del", keyPrefix+"nokey")
+					c.close()
+				}
+			}()
+			<-done
+			<-done
+			cl.kids[ld].waitLine(2*time.Second, "RELEASED ")
+		}
 		counts["batch_pairs_answered"] = made
 		if !cl.settle(90*time.Second) || !cl.readAll(h) {
 			return env("no settle")
